@@ -776,4 +776,43 @@ example (P : Prims) :
     unionParse [.rule (fun _ => parseTyped P d), none_] [0, 1, 2] (.seq .list [.int 1, .int (-2)]) = .ok (.seq .list [.int 1, .int (-2)]) := by
   constructor <;> rfl
 
+/-! ### a `const` without a source type (`types.Zero`) and declarations that are equal but not identical -/
+
+/-- no conversion comes before a `const` that has no source type: whatever is accepted is `==` to the constant — no
+fraction is a `Zero` -/
+theorem C02_const_accepts_only_equal (P : Prims) (v c r : PyVal) (h : Constraints.const P v c = .ok r) :
+    Py.eq v c = true ∧ r = c :=
+  let h' := (C02_const_iff P v c r).mp h
+  ⟨h'.1, h'.2.2⟩
+
+/-- `types.Zero` on numbers: 0, 0.0 and Decimal 0 are accepted (int/float and int/Decimal tolerance) and give 0; `False`
+(equal, other type) and 1/2 (a dyadic fraction, not equal) are rejected -/
+theorem C02_zero_examples (P : Prims) :
+    Constraints.const P (.int 0) (.int 0) = .ok (.int 0) ∧
+    Constraints.const P (.float (.fin 0 0)) (.int 0) = .ok (.int 0) ∧
+    Constraints.const P (.dec (.fin false 0 0)) (.int 0) = .ok (.int 0) ∧
+    Constraints.const P (.bool false) (.int 0) = .error .valueError ∧
+    Constraints.const P (.float (.fin 1 (-1))) (.int 0) = .error .valueError ∧
+    Constraints.const P (.float (.fin (-1) (-2))) (.int 0) = .error .valueError := by
+  refine ⟨?_, ?_, ?_, ?_, ?_, ?_⟩ <;> rfl
+
+/-- declarations whose constants are equal but not identical stay apart: `const = 1` and `const = True` accept disjoint
+sets of values (so two such declarations can never stand for one another) -/
+theorem C02_const_twins_disjoint (P : Prims) (v r r' : PyVal)
+    (h1 : Constraints.const P v (.int 1) = .ok r) (h2 : Constraints.const P v (.bool true) = .ok r') : False := by
+  have a := (C02_const_iff P v (.int 1) r).mp h1
+  have b := (C02_const_iff P v (.bool true) r').mp h2
+  have ta : typeOf v = .int ∨ tolerant (typeOf v) .int = true := by simpa [typeOf] using a.2.1
+  have tb : typeOf v = .bool ∨ tolerant (typeOf v) .bool = true := by simpa [typeOf] using b.2.1
+  cases hv : typeOf v with
+  | other n =>
+    simp [hv, tolerant, Tables.TYPE_EXACT_TOLERANCE, memEq, Py.eq, eqScalar, num?] at tb
+  | _ => simp [hv] at ta tb <;> revert ta tb <;> decide
+
+/-- a declaration is a function of its own class bodies: in a sequence of declarations every declared type has the
+validators it has when declared alone (no state is shared between declarations) -/
+theorem C02_declarations_independent (mros : List (List Body)) (i : Nat) (h : i < mros.length) :
+    (mros.map compile)[i]'(by simpa using h) = compile (mros[i]) := by
+  simp
+
 end Utv.C02
